@@ -3,7 +3,7 @@ import IofloModel.Props.C05
 # C10 — a conditional auxiliary suspends the frames below its main frame
 
 Model: `Model/Flo.lean` — `suspend` (= `Suspender.action`) with its two branches `suspendStart` / `suspendEnter`
-(`if aux.done:`) and `suspendRun` (`if not aux.done:`), `deactivize` (the exit side act that
+(`if aux.done:`) and `suspendRun` (`if not aux.done:`, after the ownership test of fix D3b), `deactivize` (the exit side act that
 `Suspender._resolve` appends to the main frame's exit acts, modelled by `suspAuxes` in `frameExit`),
 `truncate` (= `framer.change(main.head, …)`), `reactivate`.
 
@@ -27,16 +27,16 @@ theorem C10_start_conditions (i : Frid) (f : Fid) (needs : List NeedId) (aux : F
     (s : St W) (hd : (s.fr aux).done = true) :
     suspend P sem lo i f needs aux tracts s =
       (if needsHold sem needs s = true ∧ ownedElsewhere aux f s = false then
-        match lo.checkStart aux s with
+        match lo.checkStart aux [] s with
         | .error e => .error e
-        | .ok false => .ok (false, s)
-        | .ok true => suspendEnter P sem lo i f aux tracts s
+        | .ok none => .ok (false, s)
+        | .ok (some _) => suspendEnter P sem lo i f aux tracts s
        else .ok (false, s)) := by
   unfold suspend
   simp only [hd, if_true]
   unfold suspendStart
   cases hn : needsHold sem needs s <;> cases ho : ownedElsewhere aux f s <;> simp
-  cases lo.checkStart aux s with
+  cases lo.checkStart aux [] s with
   | error e => rfl
   | ok b => cases b <;> rfl
 
@@ -64,12 +64,27 @@ theorem C10_first_run_completes (i : Frid) (f : Fid) (aux : Frid) (tracts : List
 
 /-! ### running -/
 
-/-- **suspender_runs_until_done (1).**  While the auxiliary is not done the preact does not look at its needs:
-it runs `aux.segue(); aux.recur()`. -/
+/-- **suspender_runs_until_done (1).**  While the auxiliary is not done and belongs to this clause's frame the
+preact does not look at its needs: it runs `aux.segue(); aux.recur()`. -/
 theorem C10_runs_irrespective_of_needs (i : Frid) (f : Fid) (needs : List NeedId) (aux : Frid) (tracts : List Act)
-    (s : St W) (hnd : (s.fr aux).done = false) :
+    (s : St W) (hnd : (s.fr aux).done = false) (hown : notOwner P aux f s = false) :
     suspend P sem lo i f needs aux tracts s = suspendRun P lo i aux s := by
-  simp [suspend, hnd]
+  simp [suspend, hnd, hown]
+
+/-- (fix D3b) an original auxiliary that is running for another frame is neither run nor started by this
+clause: the preact returns falsy and nothing changes -/
+theorem C10_not_owner_noop (i : Frid) (f : Fid) (needs : List NeedId) (aux : Frid) (tracts : List Act)
+    (s : St W) (hnd : (s.fr aux).done = false) (hno : notOwner P aux f s = true) :
+    suspend P sem lo i f needs aux tracts s = .ok (false, s) := by
+  simp [suspend, hnd, hno]
+
+/-- in a well-formed program (every auxiliary named by one clause) the ownership test never fails: a
+conditional auxiliary that is not done belongs to the frame that names it (invariant `Owned.main`, kept by every
+operation — `opsAt_spec`) -/
+theorem C10_running_is_owned {P : Prog} {rank : Frid → Nat} (wf : WF P rank) {f : Fid} {x : Frid}
+    (hx : IsSusp P f x) {s : St W} (ho : Owned P s) (hd : (s.fr x).done = false) :
+    notOwner P x f s = false :=
+  owner_of_running wf hx ho hd
 
 /-- **suspender_runs_until_done (2).**  One segue and one recur of the auxiliary; still not done ⇒ truthy result
 with the main framer untouched by the preact itself: the remaining preacts of the main frame and all lower frames
@@ -112,15 +127,17 @@ theorem C10_main_exit_exits_aux {P : Prog} {rank : Frid → Nat} (wf : WF P rank
     ∀ x, IsSusp P f x → (s'.fr x).done = true :=
   (frameExit_sk wf (opsAt_spec wf sem n) ho h).2.1
 
-/-- the side act itself: a running auxiliary is exited and released, a done one is left alone -/
-theorem C10_deactivize (aux : Frid) (s : St W) :
-    deactivize P lo aux s =
-      (if (s.fr aux).done = true then .ok s
+/-- the side act itself: a running auxiliary of this frame is exited and released; a done one, or (fix D3b) an
+original one that is in use by another frame, is left alone -/
+theorem C10_deactivize (f : Fid) (aux : Frid) (s : St W) :
+    deactivize P lo f aux s =
+      (if (s.fr aux).done = true ∨ notOwner P aux f s = true then .ok s
        else match lo.exitAll aux s with
             | .error e => .error e
             | .ok s' => .ok (release P aux s')) := by
   unfold deactivize deactivateAux
-  split <;> rfl
+  cases (s.fr aux).done <;> cases notOwner P aux f s <;> simp
+  cases lo.exitAll aux s <;> rfl
 
 /-! ### the exception (defect D3) -/
 
